@@ -314,6 +314,7 @@ type c19Msg struct {
 	raw    []byte
 	hashes []util.Uint256
 	desc   string
+	info   c19Info // decoded head of a consensus payload (kind == c19MsgPayload)
 }
 
 type c19Canon struct {
@@ -341,6 +342,15 @@ type c19Net struct {
 	deliveries             int
 	maxView                int
 	committed              int
+	lastRec                c19RecSeen // the recovery message handed to a service most recently (storyline probes)
+}
+
+// c19RecSeen describes a delivered recovery message (classification only, no oracle reads it).
+type c19RecSeen struct {
+	from, to       int
+	view           byte
+	preps, commits int
+	hasReq         bool
 }
 
 func (net *c19Net) logf(f string, a ...any) {
@@ -636,7 +646,7 @@ func (net *c19Net) drain(n *c19Node) error {
 			net.logf("   n%d emits %s", n.idx, info)
 			for _, k := range net.nodes {
 				if k != n {
-					net.pending = append(net.pending, &c19Msg{kind: c19MsgPayload, from: n.idx, to: k.idx, raw: o.raw, desc: info.String()})
+					net.pending = append(net.pending, &c19Msg{kind: c19MsgPayload, from: n.idx, to: k.idx, raw: o.raw, desc: info.String(), info: info})
 				}
 			}
 		case c19OutReq:
@@ -819,10 +829,13 @@ func (net *c19Net) deliver(m *c19Msg) error {
 		if info.typ == recoveryMessageType {
 			// The loop is parked (quiescent) and the barrier's ack ordered its writes before us: reading is safe.
 			d := dst.srv.dbft
-			if d.BlockIndex == info.height && d.ViewNumber == info.view && d.MyIndex >= 0 && !d.CommitSent() && !d.ViewChanging() && !d.BlockSent() {
-				p := dst.srv.payloadFromExtensible(e)
-				if p.decodeData() == nil {
-					rec, _ = p.payload.(*recoveryMessage)
+			p := dst.srv.payloadFromExtensible(e)
+			if p.decodeData() == nil {
+				if r, ok := p.payload.(*recoveryMessage); ok {
+					net.lastRec = c19RecSeen{from: m.from, to: m.to, view: info.view, preps: len(r.preparationPayloads), commits: len(r.commitPayloads), hasReq: r.prepareRequest != nil}
+					if d.BlockIndex == info.height && d.ViewNumber == info.view && d.MyIndex >= 0 && !d.CommitSent() && !d.ViewChanging() && !d.BlockSent() {
+						rec = r
+					}
 				}
 			}
 		}
